@@ -35,7 +35,8 @@ func TestVerif_C12_Storage(t *testing.T) {
 			continue
 		}
 		rng := kit.NewRand(seed, 0x12000+uint64(ti))
-		c12StorageCase(t, r, rng, caseID, ti%2 == 0, ti%5 == 4, reqs)
+		// every second world also tries to mount inside the path of a sealed namespace
+		c12StorageCase(t, r, rng, caseID, ti%2 == 0, ti%5 == 4, ti%2 == 1, reqs)
 		if r.NViolations() > 30 {
 			break
 		}
@@ -57,22 +58,22 @@ func TestVerif_C12_Storage(t *testing.T) {
 
 type c12StorageRun struct {
 	*c12World
-	all        map[*c12NS]*c12Tok
-	sealedNS   *c12NS
-	unsealAt   int
-	afterMut   int // requests left that count as "following a topology mutation"
-	iter       int
-	recMounts  func() []*c12Mount
-	lastPrefix map[string]string
+	all            map[*c12NS]*c12Tok
+	sealedNS       *c12NS
+	unsealAt       int
+	afterMut       int // requests left that count as "following a topology mutation"
+	iter           int
+	shadowAttempts bool
+	lastPrefix     map[string]string
 }
 
-func c12StorageCase(t *testing.T, r *kit.Result, rng *kit.Rand, caseID string, transactional, cache bool, reqs int) {
+func c12StorageCase(t *testing.T, r *kit.Result, rng *kit.Rand, caseID string, transactional, cache, shadowAttempts bool, reqs int) {
 	w := c12Build(t, r, rng, caseID, transactional, cache)
 	if cache {
 		r.Count("worlds_with_physical_cache", 1)
 	}
 	defer w.v.Close()
-	s := &c12StorageRun{c12World: w, all: map[*c12NS]*c12Tok{}}
+	s := &c12StorageRun{c12World: w, all: map[*c12NS]*c12Tok{}, shadowAttempts: shadowAttempts}
 	for _, n := range w.nss {
 		w.policy(n, "c12-all", []string{"*"})
 		s.all[n] = w.token(n, "all@"+n.Path, "all", []string{"c12-all"}, []string{"*"}, nil)
@@ -675,7 +676,7 @@ func (s *c12StorageRun) mutate() {
 		if s.sealNS(S) {
 			s.sealedNS = S
 			s.unsealAt = s.iter + 25 + s.rng.Intn(25)
-			if s.rng.Chance(1, 3) && !S.Parent.effSealed() {
+			if s.shadowAttempts && s.rng.Chance(1, 2) && !S.Parent.effSealed() {
 				// hostile topology: the parent mounts inside the path of the sealed namespace
 				s.r.Count("topology_conflict_attempts", 1)
 				p := S.Name + "/" + []string{"shadow/", "m/", "eng/"}[s.rng.Intn(3)]
